@@ -69,6 +69,32 @@ def _corrupt(step, rnd):
     return c
 
 
+def _base(m, p, **kw):
+    r = {"m": m, "p": p, "pflag": "ok", "c": "", "cn": 0, "fault": False, "fk": 0, "dform": "na", "dp": [], "depth": "absent", "ow": "absent",
+         "ctype": "none", "ifm": "unset", "ifnm": "unset", "pform": "na"}
+    r.update(kw)
+    return r
+
+
+def _big_history():
+    """one hand-written history over a tree that is large in size only: 130 members, an eight-level chain, a 200 kB file"""
+    def ent(p, k, d=""):
+        return {"p": p, "k": k, "d": d, "n": 0}
+    t = [ent([], "c"), ent(["a"], "c"), ent(["b"], "c")]
+    for i in range(1, 8):
+        t.append(ent(["a"] * (i + 1), "c"))
+        t.append(ent(["a"] * i + ["y"], "f", "y"))
+    for i in range(130):
+        t.append(ent(["b", "m%03d" % i], "f", ["x", "y", "", "x"][i % 4] if i != 77 else "B200000"))
+    pf = lambda p, d: _base("PROPFIND", p, depth=d, pform="fileinfo")
+    reqs = [pf([], "infinity"), pf(["b"], "1"), pf(["b", "m077"], "0"), _base("GET", ["b", "m077"]), _base("GET", ["b", "m002"]),
+            _base("COPY", ["a"], dform="path", dp=["b", "acopy"], depth="infinity", ow="T"), pf(["b", "acopy"], "infinity"),
+            _base("COPY", ["b"], dform="path", dp=["a", "bcopy"], depth="0", ow="F"), pf(["a", "bcopy"], "1"),
+            _base("MOVE", ["b", "m001"], dform="path", dp=["a", "moved"], ow="F"), _base("PUT", ["b", "m003"], c="B200000"),
+            _base("GET", ["b", "m003"]), pf(["a"], "infinity"), _base("DELETE", ["b"]), pf([], "1"), pf(["b"], "0")]
+    return {"init": t, "reqs": reqs}
+
+
 def collect(ctx):
     """returns (sigs, universes, total observations)"""
     q = ctx.quick()
@@ -80,6 +106,10 @@ def collect(ctx):
     for i, (n, length, conc) in enumerate(plans):
         seed = ctx.seed * 100 + 50 + i
         hp, nh = checks_dav._gen_hists(ctx, n, length, seed, clientmix=True)
+        if i == 0:
+            hs0 = vlib.read_ndjson(hp)
+            vlib.write_ndjson(hp, hs0 + [_big_history()])
+            nh += 1
         outdir = ctx.path("obs", "clihist-%s" % conc, ".x")
         outdir = os.path.dirname(outdir)
         files, info = _record(ctx, binp, hp, conc, outdir, ctx.seed)
